@@ -1,13 +1,13 @@
 SPECIFICATION Spec
 CONSTANTS
-  Catalogue <- CatNone
+  Catalogue <- CatUsage
   DiskC = "A"
   DiskR = "A"
-  Feat = {"usage", "stop"}
+  Feat = {"usage", "msg", "stop"}
   Feeds <- FeedsTwo
-  MaxCum = 2
-  Steps = {1, 2}
-  Outcomes = {"ok", "fail", "pendok", "hold"}
+  MaxCum = 1
+  Steps = {1}
+  Outcomes = {"ok", "fail", "hold"}
   RetryFailed = TRUE
   Faithful = TRUE
 INVARIANTS TypeOK AppliedIsInForce FailedIsRefused EffectiveInForce Conservation NoDoubleCount StopUnhealthy
